@@ -104,6 +104,13 @@ FAM_CONSTS = {"asav": {"F5N": {"MaxLen": 3}, "F6P": {"MaxLen": 3}, "F5": {"MaxLe
 
 def collect_cases(plan, rep):
     """Generate all families in parallel; returns {dialect: [cases]}."""
+    only = os.environ.get("VERIF_FAMS")
+    if only:
+        # diagnostic sub-sweep ("asav/F6P,ios/F4M"): only these families of the tier's plan; never writes evidence
+        os.environ["VERIF_NO_EVIDENCE"] = "1"
+        plan = [p for p in plan if "%s/%s" % (p[0], p[1]) in only.split(",")]
+        if not plan:
+            raise C.Broken("VERIF_FAMS selects no family of this tier")
     rng = random.Random(C.seed())
     seeds = [rng.randrange(1 << 30) for _ in plan]
 
